@@ -59,11 +59,19 @@ func (i StringAnyMapInspector) SetWithBuffer(dst, value any, buf AccumulativeBuf
 		case string:
 			buf_[path[0]] = buf.BufferizeString(x)
 		case *string:
-			buf_[path[0]] = buf.BufferizeString(*x)
+			if x == nil {
+				buf_[path[0]] = value
+			} else {
+				buf_[path[0]] = buf.BufferizeString(*x)
+			}
 		case []byte:
 			buf_[path[0]] = buf.Bufferize(x)
 		case *[]byte:
-			buf_[path[0]] = buf.Bufferize(*x)
+			if x == nil {
+				buf_[path[0]] = value
+			} else {
+				buf_[path[0]] = buf.Bufferize(*x)
+			}
 		default:
 			buf_[path[0]] = value
 		}
